@@ -13,6 +13,9 @@ Trace == ndJsonDeserialize(IOEnv.TRACE_FILE)
 
 VARIABLES l, set, bad, stats
 vars == <<l, set, bad, stats>>
+\* The monitor is a deterministic chain, one state per consumed event: fingerprinting the position alone (cfg: VIEW TraceView)
+\* keeps validation linear however large `bad`, the references or the block grow.
+TraceView == l
 
 SetEv == /\ l <= Len(Trace) /\ Trace[l].ev = "Set" /\ l' = l + 1
          /\ set' = Range(Trace[l].names) /\ UNCHANGED <<bad, stats>>
